@@ -222,7 +222,7 @@ def make_cfg(rng) -> dict:
             "n_steps": rng.choice([6, 10, 16, 24, 30, 45, 60] if deep else [6, 10, 16, 24, 30]),
             "n_clients": 1, "big_coll": rng.random() < 0.3, "p_float": rng.choice([0.0, 0.5]), "p_complex": rng.choice([0.0, 0.0, 0.2]), "narrow": rng.random() < 0.3,
             "p_scaled": rng.choice([0.0, 0.4]), "p_degenerate": 0.0, "cold_start": rng.random() < 0.5, "warm": [],
-            "p_law": rng.choice([0.35, 0.5])}
+            "p_law": rng.choice([0.35, 0.5]), "p_layout": rng.choice([0.0, 0.3, 0.6])}
 
 
 class Gen:
@@ -245,6 +245,8 @@ class Gen:
             r["a"] = a
         if kw:
             r["kw"] = kw
+        if k in program.LAYOUT_KINDS and self.rng.random() < self.cfg.get("p_layout", 0.0):
+            r["layout"] = self.rng.choice(["F", "M"])   # same matrix, column-major or transposed-view storage
         self.recipes.append(r)
         return s
 
@@ -593,6 +595,17 @@ class Gen:
         """conditioning bound for a (composite) matrix acting on object x; far-away objects get a tighter one"""
         if not cond_ok(m):
             return False
+        if self.X[x]["kind"] in ("segment", "polygon", "polyhedron"):
+            # polytopes cache the join of their first vertices (supporting line / plane); join() refuses with
+            # LinearDependenceError when that tensor is below the library's ABSOLUTE tolerance 1e-8. A map that shrinks
+            # k-dimensional volume by the product of its k smallest singular values brings an honest triangle there
+            # (soak: complex t with cond 5.7e3 and entries <= 0.12, singular values of the image vertices
+            # 1.4, 2e-4, 3e-5). Dependence of incidence decisions on scale is C03's subject; here such maps are not
+            # applied to polytopes.
+            k_ = 2 if (self.X[x]["kind"] == "segment" or self.cfg["main_dim"] < 3) else 3
+            sv = np.sort(np.linalg.svd(np.asarray(m, complex), compute_uv=False), axis=-1)
+            if np.any(np.prod(sv[..., :k_], axis=-1) < 1e-3):
+                return False
         if self.X[x].get("far"):
             return bool(np.all(np.linalg.cond(m) <= 100.0))
         # objects with two tensor indices (quadrics; lines and cached segment lines in 3D) are acted on by the
